@@ -45,7 +45,7 @@ def main():
     m = {
         "version": 1,
         "setup_cmd": "./setup.sh",
-        "hooks": {"guard": "verif_hooks", "enable": "cargo feature `verif_hooks` of bc-envelope (enabled by the harness crate's dependency declaration)", "baseline_off_cmd": "cd /repo && cargo test --workspace --no-fail-fast --offline", "source_commits": [], "add_only": True},
+        "hooks": {"guard": "verif_hooks", "enable": "cargo feature `verif_hooks` of bc-envelope (enabled by the harness crate's dependency declaration)", "baseline_off_cmd": "cd /repo && cargo test --workspace --no-fail-fast --offline", "source_commits": ["c2e4c43"], "add_only": True},
         "engines": [{"name": "lean-model+correspondence", "path": "/verif/check", "serves_properties": sorted(CHECKS), "kind_free_text": "Lean 4 model + theorems (lean/), Rust differential harness (harness/), python orchestration (check, tools/)"}],
         "checks": checks,
         "not_applicable": na,
